@@ -120,7 +120,7 @@ func main() {
 			if t == "thorough" {
 				return 400000
 			}
-			return 40000
+			return 80000
 		},
 		Floor: func(t string) int {
 			if t == "thorough" {
